@@ -302,6 +302,22 @@ def _find_coding(text):
         result = text[start:end]
         if isinstance(result, bytes):
             result = result.decode("utf-8")
-        return result
+        return _normal_coding_name(result)
     except ValueError:
         pass
+
+
+def _normal_coding_name(name):
+    """Imitate the interpreter, which takes `utf-8-unix` for utf-8
+
+    See `tokenize._get_normal_name`; `utf-8-sig` is in it, too: whether the
+    file starts with a byte order mark is not up to the declaration.
+    """
+    enc = name[:12].lower().replace("_", "-")
+    if enc == "utf-8" or enc.startswith("utf-8-"):
+        return "utf-8"
+    if enc in ("latin-1", "iso-8859-1", "iso-latin-1") or enc.startswith(
+        ("latin-1-", "iso-8859-1-", "iso-latin-1-")
+    ):
+        return "iso-8859-1"
+    return name
